@@ -13,6 +13,11 @@ for name in sorted(os.listdir(os.path.join(HERE, "seeded"))):
     for chk, c in (m.get("checks") or {}).items():
         if not c:
             continue
+        if m.get("neutralised_by_fix"):
+            # a later fix commit in /repo restored what this change removed: it no longer breaks the property (see meta.json)
+            rows.append((name, m.get("property"), "no longer breaking (neutralised by a later fix commit)", chk, "n/a", c.get("seconds"),
+                         "", (m.get("files_touched") or "").strip()))
+            continue
         rows.append((name, m.get("property"), "yes" if ok else "NOT CONFIRMED", chk, "yes" if c.get("caught") else "**NO** (rc=%s)" % c.get("rc"),
                      c.get("seconds"), ", ".join(c.get("mechanisms", [])[:3]), (m.get("files_touched") or "").strip()))
 with open(os.path.join(HERE, "validation", "seeded.md"), "w") as f:
